@@ -17,7 +17,7 @@ LEMMAS = {}
 class Contract:
     def __init__(self, qualname, params=None, requires=None, ensures=None, raises=None, raises_any=False, modifies=(),
                  returns=None, invariants=None, receivers=None, serves=(), inline=False, assumed=False, note="",
-                 variants=None, fresh_result=False, total=False):
+                 variants=None, fresh_result=False, total=False, frame_only=False, fresh_params=()):
         self.qualname = qualname
         self.params = params or {}
         self.requires, self.ensures = requires, ensures
@@ -34,6 +34,8 @@ class Contract:
         self.variants = variants              # list of dicts overriding params (family members)
         self.fresh_result = fresh_result
         self.total = total
+        self.frame_only = frame_only          # only frame obligations (loops get the trivial invariant, no ensures)
+        self.fresh_params = tuple(fresh_params)  # parameters that are fresh objects (self of __init__)
 
 
 def contract(qualname, **kw):
@@ -148,3 +150,34 @@ class OneOf(Shape):
         i = ip.path.choose([True] * len(self.alts), structural=True)
         a = self.alts[i]
         return a.make(ip, name) if isinstance(a, Shape) else ip.wrap(a)
+
+
+class Opaque(Shape):
+    """Any value at all, possibly an object of any program class (frame-only verification)."""
+
+    def make(self, ip, name):
+        return Z(V.fresh(name))
+
+
+class FreshObj(Shape):
+    """A freshly allocated, still empty object of class cls (the `self` of __init__)."""
+
+    def __init__(self, cls):
+        self.cls = cls
+
+    def make(self, ip, name):
+        cls = ip.program.resolve(self.cls) if isinstance(self.cls, str) else self.cls
+        return SObj(cls, {}, fresh=True, name=name)
+
+
+class ObjVal(Shape):
+    """An object *value* of a known class with unknown fields (a Val term with a static class hint)."""
+
+    def __init__(self, cls):
+        self.cls = cls
+
+    def make(self, ip, name):
+        n = len(ip.instance_attrs(self.cls))
+        fields = V.fresh(name + "_fields", V.VS)
+        ip.path.assume(z3.Length(fields) == n)
+        return Z(V.VObj(z3.IntVal(ip.program.class_id(self.cls)), fields), self.cls)
